@@ -256,14 +256,41 @@ class AdmtEval(SymEval):
         sl = n.slice.elts if isinstance(n.slice, ast.Tuple) else [n.slice]
         if all((isinstance(x, ast.Slice) and x.lower is None and x.upper is None and x.step is None)
                or (isinstance(x, ast.Constant) and x.value is None) or norm(x) in ('np.newaxis', 'numpy.newaxis') for x in sl):
-            # c[:, np.newaxis] * D scales the rows of D by c, which is diag(c) @ D: the same product in this abstraction
-            return self.ev(n.value)
+            # c[:, np.newaxis] * D scales the rows of D by c, which is diag(c) @ D; c[np.newaxis, :] * D (like a plain 1D c * D) scales the
+            # columns.  A vector prepared for row scaling carries the marker ROW until it meets an operator.
+            v = self.ev(n.value)
+            row = len(sl) == 2 and isinstance(sl[0], ast.Slice) and not isinstance(sl[1], ast.Slice)
+            return v * L('ROW') if row and not self._has(v, 'ROW') else v
         return super().subscript(n)
+
+    SCALARS = ('anisotropy', 'dx', 'dy')
+
+    @staticmethod
+    def _has(v, what):
+        return any(l == what or l.startswith(what) for l in v.leaves())
+
+    def _scalar(self, v):
+        return all(l in self.SCALARS or l.startswith('sqrt(') for l in v.leaves())
+
+    def mul(self, a, b):
+        """element-wise product with numpy's broadcasting of a 1D vector against a matrix: rows only when the vector was given a second axis"""
+        ha, hb = self._has(a, 'OP:'), self._has(b, 'OP:')
+        if ha == hb:
+            if self._has(a, 'ROW') and self._has(b, 'ROW'):
+                return a * b.subst({'ROW': C(1)})
+            return a * b
+        vec, op = (b, a) if ha else (a, b)
+        if self._scalar(vec):
+            return a * b
+        if self._has(vec, 'ROW'):
+            return vec.subst({'ROW': C(1)}) * op
+        return vec * op * L('COLSCALED')
 
     def call(self, n):
         f = dotted(n.func)
         if f in ('np.diag', 'numpy.diag') and len(n.args) == 1:
-            return self.ev(n.args[0])
+            v = self.ev(n.args[0])
+            return v if self._has(v, 'ROW') else v * L('ROW')       # diag(c) @ D scales rows
         if f in ('np.zeros_like', 'numpy.zeros_like', 'np.zeros', 'numpy.zeros'):
             return C(0)
         if f in ('np.ones_like', 'numpy.ones_like', 'np.ones', 'numpy.ones'):
@@ -279,8 +306,14 @@ class AdmtEval(SymEval):
             if ka.startswith('OP:') and a.n.is_const() is False and len(a.n) == 1 and a.d.is_const():
                 return L('%s(%s)' % (ka[3:], kb))
             if kb.startswith('OP:') and len(b.n) == 1:
-                return a * b
+                if self._has(a, 'ROW'):
+                    return a.subst({'ROW': C(1)}) * b
+                if self._scalar(a):
+                    return a * b
+                return L('matmul(%s,%s)' % (ka, kb))
             return L('matmul(%s,%s)' % (ka, kb))
+        if isinstance(n, ast.BinOp) and isinstance(n.op, ast.Mult):
+            return self.mul(self.ev(n.left), self.ev(n.right))
         return super().ev(n)
 
 
@@ -420,7 +453,12 @@ def _admt_theory(run, fn, pinned, K):
         run.subject('C20-R7')
         cond = ' and '.join('%s%s' % ('' if t else 'not ', k) for k, t in p.decisions) or 'unconditional'
         got = p.returned.subst(ren)
-        if any('?' in l for l in got.leaves()) or any(l.startswith('matmul(') for l in got.leaves()):
+        if 'COLSCALED' in got.leaves():
+            run.fail('C20-R7', K + 'path|' + cond[:40] + '|columns', FILE, fn.lineno,
+                     'on the path [%s] a per-voxel coefficient multiplies an operator matrix as a plain 1D array: numpy broadcasts it along the '
+                     'last axis, which scales the columns (D @ diag(c)) where the operator needs its rows scaled (diag(c) @ D)' % cond[:80])
+            continue
+        if any('?' in l for l in got.leaves()) or any(l.startswith('matmul(') for l in got.leaves()) or 'ROW' in got.leaves():
             run.undecided('C20-R7', 'path [%s]' % cond[:60], 'returned operator has parts that were not interpreted')
             continue
         if got.eq(want):
@@ -507,10 +545,16 @@ def _admt(run, prog, mi):
             run.subject(r)
             run.undecided(r, 'calculate_admt', 'the coefficient locals cx, cy, cxx, cxy, cyy / Dpar, Dperp are not all assigned on one path')
         return
+    def unrow(v):
+        # np.diag(c) / c[:, np.newaxis] carry the row-scaling marker until they meet an operator: the coefficient itself is without it
+        try:
+            return v.subst({'ROW': C(1)}) if 'ROW' in v.leaves() else v
+        except Exception:
+            return v
     ev = type('Env', (), {})()
-    ev.env = main[0][1]
+    ev.env = {k_: unrow(v_) for k_, v_ in main[0][1].items()}
     ev2 = AdmtEval()
-    ev2.env = main2[0][1]
+    ev2.env = {k_: unrow(v_) for k_, v_ in main2[0][1].items()}
     final2 = main2[0][0].returned
     # canonical jet names
     psi = 'psi_at_voxels'
@@ -608,6 +652,9 @@ def _admt(run, prog, mi):
 
 
 MUTANTS = [
+    dict(name='coefficients-broadcast-along-columns', file=FILE,
+         find="    cx = np.diag(cx)\n    cy = np.diag(cy)\n    cxx = np.diag(cxx)\n    cyy = np.diag(cyy)\n    cxy = np.diag(cxy)\n    admt_operator = cx @ Dx + cy @ Dy + cxx @ Dxx + 2 * cxy @ Dxy + cyy @ Dyy\n",
+         replace="    cx = cx[:, np.newaxis]\n    cy = cy[:, np.newaxis]\n    admt_operator = cx * Dx + cy * Dy + cxx * Dxx + 2 * cxy * Dxy + cyy * Dyy\n", expect='C20-R7'),
     dict(name='operators-scaled-in-place', file=FILE, find="    cx = np.diag(cx)\n", replace="    Dx *= cx[:, np.newaxis]\n    cx = np.diag(np.ones_like(cx))\n", expect='C20-R8'),
     dict(name='operators-typed-after-the-grid', file=FILE, find="    Dx = np.zeros((num_cells, num_cells))\n", replace="    Dx = np.zeros((num_cells, num_cells), dtype=voxel_vertices.dtype)\n", expect='C20-R8'),
     dict(name='isotropic-fast-path', file=FILE, find="    cx = np.diag(cx)\n", replace="    if anisotropy == 1:\n        return (Dxx + Dyy) * np.sqrt(dx * dy)\n    cx = np.diag(cx)\n", expect='C20-R7'),
